@@ -37,6 +37,9 @@ pub struct PortScript {
     pub slow_receiver: bool,
     /// Receiver accepts (true) or rejects (false) incoming port requests, cyclic.
     pub accept: Vec<bool>,
+    /// Poll budgets after which a pending receive call is dropped and re-issued (cyclic; 0 = never).
+    #[serde(default)]
+    pub recv_cancel: Vec<u8>,
 }
 
 #[derive(Clone, Debug, Serialize, Deserialize, PartialEq, Eq, Hash)]
@@ -106,8 +109,9 @@ fn port_strategy(max_ops: usize) -> BoxedStrategy<PortScript> {
         prop_oneof![4 => Just(false), 1 => Just(true)],
         any::<bool>(),
         proptest::collection::vec(any::<bool>(), 1..4),
+        prop_oneof![2 => Just(Vec::new()), 1 => proptest::collection::vec(0u8..=4, 1..4)],
     )
-        .prop_map(|(reverse, ops, stalled, slow_receiver, accept)| PortScript { reverse, ops, stalled, slow_receiver, accept })
+        .prop_map(|(reverse, ops, stalled, slow_receiver, accept, recv_cancel)| PortScript { reverse, ops, stalled, slow_receiver, accept, recv_cancel })
         .boxed()
 }
 
@@ -239,9 +243,11 @@ pub struct ReceiverLog {
 
 /// Drains the receiver until end-of-stream or until `stop` is notified; returns the receiver.
 pub async fn receiver_actor(
-    mut rx: chmux::Receiver, slow: bool, accept: Vec<bool>, tape: Tape, log: Arc<Mutex<ReceiverLog>>, stop: Arc<Notify>,
+    mut rx: chmux::Receiver, slow: bool, accept: Vec<bool>, recv_cancel: Vec<u8>, tape: Tape, log: Arc<Mutex<ReceiverLog>>,
+    stop: Arc<Notify>,
 ) -> chmux::Receiver {
     let mut k = 0usize;
+    let mut cc = 0usize;
     loop {
         if slow {
             tape_pause(&tape, true).await;
@@ -249,7 +255,7 @@ pub async fn receiver_actor(
         let r = tokio::select! {
             biased;
             () = stop.notified() => return rx,
-            r = rx.recv_any() => r,
+            r = async { super::c01::with_recv_cancel!(recv_cancel, cc, rx.recv_any()) } => r,
         };
         match r {
             Ok(Some(Received::Data(_))) => log.lock().unwrap().msgs += 1,
@@ -399,7 +405,7 @@ pub async fn execute(case: &Case) -> CaseRun {
             (None, Some(rx))
         } else {
             (
-                Some(spawn_actor(receiver_actor(rx, p.slow_receiver, p.accept.clone(), tape.clone(), rlog.clone(), stop.clone()))),
+                Some(spawn_actor(receiver_actor(rx, p.slow_receiver, p.accept.clone(), p.recv_cancel.clone(), tape.clone(), rlog.clone(), stop.clone()))),
                 None,
             )
         };
@@ -486,7 +492,7 @@ pub async fn execute(case: &Case) -> CaseRun {
                 }
                 // Phase 4: receiver drains again; a one-port open request must go through.
                 let stop2 = Arc::new(Notify::new());
-                let rh = spawn_actor(receiver_actor(rx, false, vec![true], tape.clone(), p.rlog.clone(), stop2.clone()));
+                let rh = spawn_actor(receiver_actor(rx, false, vec![true], vec![], tape.clone(), p.rlog.clone(), stop2.clone()));
                 if po.probe.as_ref().map(|r| r.is_ok()).unwrap_or(true) && !eos {
                     let mut tx = p.tx.lock().await;
                     if let Some(port) = tx.port_allocator().try_allocate() {
@@ -572,6 +578,11 @@ pub fn run_case(case: &Case) -> Outcome {
             out.fail("C03/recv-error", format!("port {pi}: receiver error {e}"));
         }
         if !p.sender_done {
+            if std::env::var("VERIF_DEBUG").is_ok() {
+                for m in st.msgs.iter().filter(|m| !m.delivered).rev().take(30).collect::<Vec<_>>().into_iter().rev() {
+                    eprintln!("  t={} dir={} {:?} payload={:?}", m.t_ms, m.dir, m.msg, m.payload.as_ref().map(|p| p.len()));
+                }
+            }
             let others_stalled = case.ports.iter().any(|s| s.stalled);
             out.fail(
                 if others_stalled { "C03/pending-op/with-stalled-port" } else { "C03/pending-op" },
@@ -597,6 +608,10 @@ pub fn run_case(case: &Case) -> Outcome {
     }
     if pool_zero {
         out.class("credit-pool-exhausted");
+    }
+    if case.ports.iter().any(|p| p.recv_cancel.iter().any(|c| *c > 0)) {
+        out.class("receive-calls-cancelled");
+        special = true;
     }
     out.nontrivial = pool_zero && special;
     if case.sched.perturbed() {
@@ -651,6 +666,7 @@ pub fn main(tier: Tier, seed: u64) -> Report {
 
 pub fn replay(_part: &str, case: serde_json::Value) -> (Option<runner::Failure>, u32, u32) {
     let case: Case = serde_json::from_value(case).expect("replay case does not parse as C03 case");
-    let (f, hits) = runner::replay_case(&case, run_case, 5);
-    (f, hits, 5)
+    let n = runner::replay_times(5);
+    let (f, hits) = runner::replay_case(&case, run_case, n);
+    (f, hits, n)
 }
